@@ -1,6 +1,5 @@
 use super::map::CreateFreeListResult;
 use super::map::VMMap;
-#[cfg(not(kani))]
 use crate::mmtk::SFT_MAP;
 use crate::util::conversions;
 use crate::util::freelist::FreeList;
@@ -299,9 +298,6 @@ impl Map32 {
                 let chunk_start = conversions::chunk_index_to_address(index);
                 debug!("Clear descriptor for Chunk {}", chunk_start);
                 self.mut_self().descriptor_map[index] = SpaceDescriptor::UNINITIALIZED;
-                // The global SFT map (a lazily initialised `dyn SFTMap` singleton) is outside the verification
-                // harnesses' reach; clearing it does not touch the region map.
-                #[cfg(not(kani))]
                 SFT_MAP.clear(chunk_start);
             }
             chunks as _
@@ -319,18 +315,5 @@ impl Map32 {
 impl Default for Map32 {
     fn default() -> Self {
         Self::new()
-    }
-}
-
-/// Hooks for the external verification harnesses (see `crate::verif_hooks`): the private `Map32` type and read-only
-/// views of its link arrays.
-#[cfg(any(kani, mmtk_verif))]
-pub mod verif_hooks {
-    pub use super::Map32;
-    pub fn next_link(m: &Map32, chunk: usize) -> i32 {
-        m.next_link[chunk]
-    }
-    pub fn prev_link(m: &Map32, chunk: usize) -> i32 {
-        m.prev_link[chunk]
     }
 }
